@@ -1,37 +1,36 @@
 #!/usr/bin/env python3
-"""Selftest: apply each corpus edit to a scratch copy of /repo, check that it compiles,
-run the property's check and compare with the expectation. Usage: run.py [ids...]"""
+"""Selftest: apply each corpus edit (selftest/corpus.json) to a scratch copy of /repo, check that it
+compiles, run the property's check and compare with the expectation. Usage: run.py [ids...]"""
 import os, subprocess, sys, tempfile, shutil, json, concurrent.futures as cf
-sys.path.insert(0, os.path.dirname(__file__))
-from corpus import M, H
-ENV = dict(os.environ, GOFLAGS="-mod=mod", GOPROXY="off", GOSUMDB="off", GOTOOLCHAIN="local")
 VERIF = os.environ.get("VERIF_ROOT", "/verif")
-def run_one(entry, harmless):
-    if harmless:
-        mid, prop, fn, edits = entry; expect = None
-    else:
-        mid, prop, fn, old, new, expect = entry; edits = [(old, new)]
+ENV = dict(os.environ, GOFLAGS="-mod=mod", GOPROXY="off", GOSUMDB="off", GOTOOLCHAIN="local")
+C = json.load(open(os.path.join(VERIF, "selftest", "corpus.json")))
+def run_one(e, harmless):
+    mid, prop, fn = e["id"], e["property"], e["file"]
+    edits = e["edits"] if harmless else [{"old": e["old"], "new": e["new"]}]
     d = tempfile.mkdtemp(prefix="selftest.")
     try:
         subprocess.run(["rsync", "-a", "--exclude", ".git", "/repo/", d + "/"], check=True)
         p = os.path.join(d, fn); s = open(p).read()
-        for old, new in edits:
-            if old not in s:
+        for ed in edits:
+            if ed["old"] not in s:
                 return (mid, prop, "STALE", "edit does not apply")
-            s = s.replace(old, new, 1)
+            s = s.replace(ed["old"], ed["new"], 1)
         open(p, "w").write(s)
-        b = subprocess.run(["go", "build", "./..."], cwd=d, env=ENV, capture_output=True, text=True)
+        benv = dict(ENV)
+        if e.get("goos"): benv.update(GOOS=e["goos"], CGO_ENABLED="0")
+        b = subprocess.run(["go", "build", "./..."], cwd=d, env=benv, capture_output=True, text=True)
         if b.returncode != 0:
             return (mid, prop, "NOCOMPILE", b.stderr[-300:])
         ev = os.path.join(d, ".evidence")
         r = subprocess.run([VERIF + "/bin/verif", "check", prop], env=dict(ENV, VERIF_REPO=d, VERIF_EVIDENCE_DIR=ev), capture_output=True, text=True, timeout=900)
         out = r.stdout
-        viol = [l for l in out.splitlines() if l.startswith("VIOLATION") or l.startswith("failed obligation")]
+        viol = [l for l in out.splitlines() if l.startswith(("VIOLATION", "failed obligation", "bounded C20 failure", "scenario "))]
         if harmless:
             ok = r.returncode == 0
             return (mid, prop, "OK" if ok else "FALSE-ALARM", "" if ok else "\n".join(out.splitlines()[-6:]))
-        if r.returncode == 1 and any(expect in l for l in viol):
-            return (mid, prop, "DETECTED", next(l for l in viol if expect in l)[:160])
+        if r.returncode == 1 and any(e["expect"] in l for l in viol):
+            return (mid, prop, "DETECTED", next(l for l in viol if e["expect"] in l)[:160])
         if r.returncode == 1:
             return (mid, prop, "DETECTED-OTHER", "; ".join(viol)[:300])
         return (mid, prop, "MISSED" if r.returncode == 0 else "UNDECIDED", "\n".join(out.splitlines()[-4:])[:400])
@@ -39,13 +38,14 @@ def run_one(entry, harmless):
         shutil.rmtree(d, ignore_errors=True)
 def main():
     want = set(sys.argv[1:])
-    jobs = [(e, False) for e in M if not want or e[0] in want] + [(e, True) for e in H if not want or e[0] in want]
+    jobs = [(e, False) for e in C["must_fail"] if not want or e["id"] in want] + [(e, True) for e in C["harmless"] if not want or e["id"] in want]
     res = []
     with cf.ThreadPoolExecutor(max_workers=4) as ex:
         for r in ex.map(lambda j: run_one(*j), jobs):
             print("%-28s %-4s %-14s %s" % r, flush=True); res.append(r)
     bad = [r for r in res if r[2] not in ("DETECTED", "OK")]
     print("selftest: %d entries, %d as expected, %d not" % (len(res), len(res) - len(bad), len(bad)))
-    json.dump([dict(id=r[0], property=r[1], outcome=r[2], detail=r[3]) for r in res], open(os.path.join(VERIF, "selftest", "last_run.json"), "w"), indent=1)
+    if not want:
+        json.dump([dict(id=r[0], property=r[1], outcome=r[2], detail=r[3]) for r in res], open(os.path.join(VERIF, "selftest", "last_run.json"), "w"), indent=1)
     sys.exit(1 if bad else 0)
 main()
